@@ -5,5 +5,5 @@ set -u
 cd /verif/harness-locks || exit 0
 export CARGO_NET_OFFLINE=true
 [ -f Cargo.lock ] || cp /repo/Cargo.lock Cargo.lock
-cargo build --offline -p kvl-c08 || echo "setup_c08: driver build failed (./check C08 will report it)"
+cargo build --offline --workspace --bins || echo "setup_c08: driver build failed (./check C08 will report it)"
 exit 0
